@@ -507,6 +507,10 @@ def classify(ch, exact=False):
         return SP
     if ch == "\f":
         return FF
+    if ch == "+":
+        return PLUS
+    if ch == "~":
+        return TILDE
     if o < 0x20 and ch not in "\t\r" and not exact:
         return CTRL                      # what XMLConverter.CONTROL strips and XML 1.0 cannot carry
     return 1000 + o
